@@ -508,7 +508,14 @@ func (pe *PolicyEngine) insertAdminNetworkPolicy(anp *apisv1a.AdminNetworkPolicy
 	// clear the cache on admin netpols changes
 	pe.cache.clear()
 	// keep the slice sorted by priority, so that the policy-engine may be queried after any insertion
-	return pe.sortAdminNetpolsByPriority()
+	if err := pe.sortAdminNetpolsByPriority(); err != nil {
+		// the policy is rejected (its priority is not valid, or is used by another admin-network-policy): it is not kept in the
+		// policy-engine, so that the policies inserted before it (and after it) are still sorted by their priorities
+		_ = pe.deleteAdminNetworkPolicy(anp)
+		_ = pe.sortAdminNetpolsByPriority()
+		return err
+	}
+	return nil
 }
 
 func (pe *PolicyEngine) insertBaselineAdminNetworkPolicy(banp *apisv1a.BaselineAdminNetworkPolicy) error {
